@@ -531,3 +531,46 @@ Theorem C02_tie_header_calls :
   Src.HEADER_DUMP_CALLS = SrcTieHeader.dump_calls_model.
 Proof. exact SrcTieHeader.header_from_calls. Qed.
 Print Assumptions C02_tie_header_calls.
+
+(* ---------- Tie A, level 1 for the repair loop (tools/src2v3_repair.py -> gen/Src3r.v): `convert_to_archive` as
+   translated from /repo on every run is simulated by Repair.repair for every source, fuel and writer state ---------- *)
+From MLA Require SrcTie3Repair SrcTie3RepairLoop.
+Check SrcTie3RepairLoop.convert_to_archive_sim.
+Theorem C02_tie_convert_to_archive_sim : ltac:(let t := type of SrcTie3RepairLoop.convert_to_archive_sim in exact t).
+Proof. exact SrcTie3RepairLoop.convert_to_archive_sim. Qed.
+Print Assumptions C02_tie_convert_to_archive_sim.
+Check SrcTie3RepairLoop.convert_to_archive_sim_ok.
+Theorem C02_tie_convert_to_archive_sim_ok : ltac:(let t := type of SrcTie3RepairLoop.convert_to_archive_sim_ok in exact t).
+Proof. exact SrcTie3RepairLoop.convert_to_archive_sim_ok. Qed.
+Print Assumptions C02_tie_convert_to_archive_sim_ok.
+Check SrcTie3RepairLoop.convert_to_archive_sim_err.
+Theorem C02_tie_convert_to_archive_sim_err : ltac:(let t := type of SrcTie3RepairLoop.convert_to_archive_sim_err in exact t).
+Proof. exact SrcTie3RepairLoop.convert_to_archive_sim_err. Qed.
+Print Assumptions C02_tie_convert_to_archive_sim_err.
+Check SrcTie3RepairLoop.convert_to_archive_sim_crash.
+Theorem C02_tie_convert_to_archive_sim_crash : ltac:(let t := type of SrcTie3RepairLoop.convert_to_archive_sim_crash in exact t).
+Proof. exact SrcTie3RepairLoop.convert_to_archive_sim_crash. Qed.
+Print Assumptions C02_tie_convert_to_archive_sim_crash.
+Check SrcTie3RepairLoop.convert_to_archive_sim_init.
+Theorem C02_tie_convert_to_archive_sim_init : ltac:(let t := type of SrcTie3RepairLoop.convert_to_archive_sim_init in exact t).
+Proof. exact SrcTie3RepairLoop.convert_to_archive_sim_init. Qed.
+Print Assumptions C02_tie_convert_to_archive_sim_init.
+Check SrcTie3Repair.buf_fill_sim.
+Theorem C02_tie_buf_fill_sim : ltac:(let t := type of SrcTie3Repair.buf_fill_sim in exact t).
+Proof. exact SrcTie3Repair.buf_fill_sim. Qed.
+Print Assumptions C02_tie_buf_fill_sim.
+Check SrcTie3Repair.content_sim.
+Theorem C02_tie_content_sim : ltac:(let t := type of SrcTie3Repair.content_sim in exact t).
+Proof. exact SrcTie3Repair.content_sim. Qed.
+Print Assumptions C02_tie_content_sim.
+Check SrcTie3RepairLoop.loop_sim.
+Theorem C02_tie_loop_sim : ltac:(let t := type of SrcTie3RepairLoop.loop_sim in exact t).
+Proof. exact SrcTie3RepairLoop.loop_sim. Qed.
+Print Assumptions C02_tie_loop_sim.
+Check SrcTie3RepairLoop.cleanup_sim.
+Theorem C02_tie_cleanup_sim : ltac:(let t := type of SrcTie3RepairLoop.cleanup_sim in exact t).
+Proof. exact SrcTie3RepairLoop.cleanup_sim. Qed.
+Print Assumptions C02_tie_cleanup_sim.
+Example C02_tie_convert_to_archive_sim_nonvacuous : ltac:(let t := type of SrcTie3RepairLoop.convert_to_archive_sim_nonvacuous in exact t).
+Proof. exact SrcTie3RepairLoop.convert_to_archive_sim_nonvacuous. Qed.
+Print Assumptions C02_tie_convert_to_archive_sim_nonvacuous.
